@@ -142,7 +142,7 @@ func FuzzC05(f *testing.F) {
 			return
 		}
 		if err := checkArith(string(b), nil); err != nil {
-			t.Fatalf("C05 violated on %q: %v", b, err)
+			fuzzFail(t, "C05", &SrcCase{Src: string(b)}, err)
 		}
 	})
 }
